@@ -429,6 +429,28 @@ func TestGetAssignUpdate(t *testing.T) {
 	}
 }
 
+func TestListIsConsistentRead(t *testing.T) {
+	mk := func(body string) string { return "func (ci *crdIpam) L() (*List, error) {\n" + body + "\n}\n" }
+	cases := []tc{
+		{"empty literal", mk(`return ci.client.GalaxyV1alpha1().FloatingIPs().List(ctx, metav1.ListOptions{})`), true},
+		{"named empty options", mk(`opts := metav1.ListOptions{}
+	l, err := ci.client.GalaxyV1alpha1().FloatingIPs().List(ctx, opts)
+	if err != nil { return nil, err }
+	return l, nil`), true},
+		{"var declaration", mk(`var o metav1.ListOptions
+	return ci.client.GalaxyV1alpha1().FloatingIPs().List(ctx, o)`), true},
+		{"resourceVersion 0 (watch cache)", mk(`return ci.client.GalaxyV1alpha1().FloatingIPs().List(ctx, metav1.ListOptions{ResourceVersion: "0"})`), false},
+		{"field set later", mk(`o := metav1.ListOptions{}
+	o.ResourceVersion = "0"
+	return ci.client.GalaxyV1alpha1().FloatingIPs().List(ctx, o)`), false},
+	}
+	for _, c := range cases {
+		if got := world1(t, c.src).fn("L").listIsConsistentRead(); got != c.want {
+			t.Errorf("%s: got %v want %v", c.name, got, c.want)
+		}
+	}
+}
+
 // the real source tree: every fact has the expected value (the same expectations the Lean `fact_*` theorems pin)
 func TestRepo(t *testing.T) {
 	repo := os.Getenv("GALAXY_REPO")
